@@ -49,26 +49,38 @@ def main():
     gof = "-modfile=%s/go.mod -ldflags=-checklinkname=0" % gm
     # --- demo parse
     run_md = open(mdir + "/RUN.md").read() if os.path.exists(mdir + "/RUN.md") else ""
+    run_md = re.sub(r"\\\n\s*", " ", run_md)
     demo_cmds = []
     cps = re.findall(r"cp\s+(\S+)\s+(\S+)", run_md)
-    for m_ in re.finditer(r"[Cc]opy\s+`?([\w./-]+)`?\s+(?:in)?to\s+`?([\w./<>-]+)`?", run_md):
-        src_, dst_ = m_.group(1), m_.group(2)
-        if not src_.startswith("/"):
-            src_ = os.path.join(mdir, src_)
-        cps.append((src_, dst_))
+    for line_ in run_md.split("\n"):
+        if not re.search(r"\b[Cc]opy\b|\bcp\b|[Pp]lace|[Pp]ut ", line_):
+            continue
+        toks = re.findall(r"`([^`]+)`", line_)
+        srcs = [t for t in toks if ("demo" in t and t.endswith(".go")) or t.endswith("demo_test.go")]
+        if not srcs:
+            continue
+        src_ = srcs[0] if srcs[0].startswith("/") else os.path.join(mdir, os.path.basename(srcs[0]))
+        dsts = [t for t in toks if t != srcs[0] and t.endswith(".go") and "/" in t]
+        if not dsts:
+            dsts = [t for t in toks if t != srcs[0] and ("/" in t) and not t.startswith("go ") and os.path.isdir(os.path.join(wt, re.sub(r"^<[^>]*>/", "", t)))]
+        if dsts:
+            cps.append((src_, dsts[-1]))
     gos = re.findall(r"(go (?:test|run)[^\n`]*)", run_md)
     copies = []
     for src, dst in cps:
         src = src.strip("`'\"")
         dst = dst.strip("`'\"")
+        if not src.startswith("/"):
+            src = os.path.join(mdir, os.path.basename(src))
+        dst = re.sub(r"^<checkout>/", "", dst)
         dst = re.sub(r"^(<repo>|\$REPO|\$\{?REPO\}?|<worktree>|/tmp/mut-%s|\.)/" % ID, "", dst)
         dst = re.sub(r"^<[^>]*>/", "", dst)
-        if os.path.exists(src) and not dst.startswith("/"):
-            copies.append((src, dst))
+        if os.path.exists(src) and not dst.startswith("/") and dst not in ("the", "a", "into"):
+            copies = [c for c in copies if c[0] != src] + [(src, dst)]
     gocmd = None
     for g in gos:
         if "-run" in g or "go run" in g:
-            g = re.sub(r"-modfile=(<[^>]*>|\S+)", "", g)
+            g = re.sub(r"-modfile=(<[^>]*>\S*|\S+)", "", g)
             g = re.sub(r"-ldflags=(<[^>]*>|\S+)", "", g)
             g = re.sub(r"^.*?(go (test|run))", r"\1", g)
             g = re.sub(r"(GOFLAGS|GOPROXY|GOSUMDB|GOTOOLCHAIN)=\S+", "", g)
